@@ -296,6 +296,32 @@ def run_step_kind(case):
 HANDLERS['step_kind'] = run_step_kind
 
 
+def run_step_range(case):
+    """one emulate_cycle (whatever its outcome); returns [0] when afterwards every general register, the PC, CPSR and
+    the SPSRs hold a value in 0..2^32-1, else [1, index of the first offending RName (1-based) or 100+k for the k-th PSR]"""
+    from armulator.armv6.registers import RName
+    arm = build(case['state'])
+    try:
+        with contextlib.redirect_stdout(io.StringIO()):
+            arm.emulate_cycle()
+    except Exception:  # noqa
+        pass
+    regs = arm.registers
+    for i in range(34):
+        v = regs._R[RName(i + 1)]
+        if not (isinstance(v, int) and 0 <= v < 2 ** 32):
+            return [1, i + 1]
+    for k, n in enumerate(('cpsr', 'spsr_hyp', 'spsr_svc', 'spsr_abt', 'spsr_und', 'spsr_mon', 'spsr_irq', 'spsr_fiq', 'elr_hyp')):
+        a = getattr(regs, n)
+        v = a.value if hasattr(a, 'value') else a
+        if not (0 <= int(v) < 2 ** 32):
+            return [1, 100 + k]
+    return [0]
+
+
+HANDLERS['step_range'] = run_step_range
+
+
 def run_multi(case):
     """several processor instances in one process: build them in order, step them in the given interleaving, and
     return the final state of instance `probe` ([0] + dump, or the exception encoding of its last failing step + dump)"""
